@@ -194,6 +194,11 @@ def concretize(ex, model):
             return float("nan")
         if isinstance(v, E.StrV):
             return v.s
+        if isinstance(v, E.ObjV):
+            # an opaque record becomes a plain record of the fields the unit looked at (the contract's `call` adapter
+            # decides how to turn it into a real object)
+            from .concrete import Rec
+            return Rec(**{k: conc(x) for k, x in v.fields.items() if not k.startswith("__")})
         raise NotConcretizable(repr(v))
 
     args = {k: conc(v) for k, v in ex.params.items()}
